@@ -572,11 +572,20 @@ class KOpt(Kind):
     if isinstance(w, VNone):
       return self.c_none
     if isinstance(w, VOpt):
+      src = getattr(w, 'src', None)
+      if src is not None and w.is_none.eq(self.is_none_f(src)) and \
+          self.inner.box(w.inner).eq(self.inner.box(self.inner.unbox(self.f_get(src)))):
+        # unchanged since it was unboxed from `src`: the term itself, not its reconstruction
+        # ite(is_none(src), none, some(get(src))) (equal by the datatype axioms, but opaque to
+        # E-matching and illegal inside patterns)
+        return src
       return z3.If(w.is_none, self.c_none, self.c_some(self.inner.box(w.inner)))
     return self.c_some(self.inner.box(w))
 
   def unbox(self, e):
-    return VOpt(self, self.is_none_f(e), self.inner.unbox(self.f_get(e)))
+    w = VOpt(self, self.is_none_f(e), self.inner.unbox(self.f_get(e)))
+    w.src = e
+    return w
 
 
 class KRecord(Kind):
@@ -603,11 +612,22 @@ class KRecord(Kind):
 
   def box(self, w):
     ctor = getattr(self.dt, 'mkr_' + self.dtname)
-    return ctor(*[kd.box(coerce(w.fields[f], kd)) for f, kd in self.fields.items()])
+    parts = [kd.box(coerce(w.fields[f], kd)) for f, kd in self.fields.items()]
+    src = getattr(w, 'src', None)
+    if src is not None:
+      # every field still what unboxing `src` gave?  then the record is `src` itself (equal to
+      # its field-wise reconstruction by the datatype axioms, but a far simpler term)
+      same = all(p.eq(kd.box(kd.unbox(getattr(self.dt, f'{self.dtname}_{f}')(src))))
+                 for p, (f, kd) in zip(parts, self.fields.items()))
+      if same:
+        return src
+    return ctor(*parts)
 
   def unbox(self, e):
-    return VRecord(self, {f: kd.unbox(getattr(self.dt, f'{self.dtname}_{f}')(e))
-                          for f, kd in self.fields.items()})
+    w = VRecord(self, {f: kd.unbox(getattr(self.dt, f'{self.dtname}_{f}')(e))
+                       for f, kd in self.fields.items()})
+    w.src = e
+    return w
 
 
 # ----------------------------------------------------------------------------
